@@ -34,6 +34,22 @@ func gen(r *rand.Rand, idx int, tier string) Input {
 	}
 	in.Workers = lib.Pick(r, []int{1, 2, 3, 4, 8, 16, 32})
 	in.Procs = lib.Pick(r, []int{1, 2, 4, 16})
+	if r.Intn(6) == 0 {
+		// products v*m in [2^62, 2^64): a single-stack tree with a count around 2^41..2^50 and a multiplier that
+		// brings the root's product just below 2^64 (m >= 2 after big.Rat normalisation, d not dividing it)
+		v := uint64(1)<<uint(41+r.Intn(10)) + uint64(r.Int63n(1<<20))
+		in.Trees = [][]treeu.Stack{{{Key: []byte("a;b"), V: v}, {Key: []byte("a;c"), V: uint64(1 + r.Intn(1000))}, {Key: []byte("d"), V: uint64(r.Intn(7))}}}
+		total := v + 1010
+		m := (^uint64(0))/total - uint64(r.Intn(3))
+		if m%2 == 0 {
+			m--
+		}
+		in.M = m
+		in.D = lib.Pick(r, []uint64{3, 7, 10, 1000003, (1 << 20) + 7, m - 2})
+		in.Workers = 1
+		in.Procs = 1
+		return in
+	}
 	switch r.Intn(5) {
 	case 0:
 		in.M, in.D = 1, 1
